@@ -198,7 +198,7 @@ class Site:
         stored = _stored_names(fn)
         caller_names = _stored_names(self.caller) | {p.arg for p in self.caller.args.posonlyargs + self.caller.args.args + self.caller.args.kwonlyargs}
         Site.counter += 1
-        k = Site.counter
+        k = self.k = Site.counter
         rename = {n: f"{n}__i{k}" for n in stored if n in caller_names or n in actual}
         env: dict[str, ast.expr] = {}
         pre: list[ast.stmt] = []
@@ -322,12 +322,37 @@ class Site:
                         and T not in rename.values():
                     rename[r] = T
                     same_as_target = T
+        # the same for `T1, T2 = helper(..)` with `return (r1, r2)` on every path
+        same_tuple = None
+        if form == "assign" and isinstance(target_stmt, ast.Assign) and len(target_stmt.targets) == 1 \
+                and isinstance(target_stmt.targets[0], ast.Tuple) \
+                and all(isinstance(x, ast.Name) for x in target_stmt.targets[0].elts):
+            Ts = [x.id for x in target_stmt.targets[0].elts]
+            rets = [n for n in _own_walk(self.callee) if isinstance(n, ast.Return)]
+            shapes = {tuple(x.id for x in n.value.elts) for n in rets
+                      if isinstance(n.value, ast.Tuple) and all(isinstance(x, ast.Name) for x in n.value.elts)}
+            a_ = self.callee.args
+            params = {p.arg for p in a_.posonlyargs + a_.args + a_.kwonlyargs}
+            if rets and len(shapes) == 1 and all(isinstance(n.value, ast.Tuple) for n in rets) \
+                    and len(next(iter(shapes))) == len(Ts) == len(set(Ts)) and len(set(next(iter(shapes)))) == len(Ts):
+                rs = list(next(iter(shapes)))
+                used = {n.id for n in _own_walk(self.callee) if isinstance(n, ast.Name)}
+                arg_names = {n.id for v in env.values() for n in ast.walk(v) if isinstance(n, ast.Name)}
+                stored = _stored_names(self.callee)
+                if all(r not in params and r in stored and (T == r or T not in used) and T not in arg_names
+                       and rename.get(r, T) in (T, f"{r}__i{self.k}") for r, T in zip(rs, Ts)) \
+                        and not any(T in rename.values() for T in Ts):
+                    for r, T in zip(rs, Ts):
+                        rename[r] = T
+                    same_tuple = Ts
         sub = _Subst(env, rename)
         body = [sub.visit(copy.deepcopy(s)) for s in _body(self.callee)]
 
         def ret(e: ast.expr | None) -> list[ast.stmt]:
             v = e if e is not None else ast.Constant(None)
             if same_as_target is not None and isinstance(v, ast.Name) and v.id == same_as_target:
+                return []
+            if same_tuple is not None and isinstance(v, ast.Tuple) and [getattr(x, "id", None) for x in v.elts] == same_tuple:
                 return []
             if form == "expr":
                 return [ast.Expr(v)] if any(isinstance(x, ast.Call) for x in ast.walk(v)) else []
